@@ -188,7 +188,10 @@ func zzLogOfTx(st *zzStore, id *big.Int) (*ledger.ChainedLog, *ledger.Transactio
 func ZZ_C16(shape int) {
 	kind, mode := shape/3, shape%3
 	amt := verifhook.BigInt("amt")
-	w, _, N := zzNewWorld()
+	st := zzNewStore()
+	st.setOpening("a", "USD/2", verifhook.BigInt("bal_a"))
+	_, N := zzPreload(st)
+	w := zzStartBus(st, NewDefaultLocker())
 	p := Parameters{}
 	switch mode {
 	case 1:
